@@ -7,6 +7,8 @@ import (
 	"bytes"
 	"fmt"
 	"io"
+	"io/ioutil"
+	"strings"
 	"net"
 	"sync"
 	"sync/atomic"
@@ -35,6 +37,7 @@ type cConn struct {
 	local     *recConn
 	k         *hConn   // server side of a tunnelled connection (dial plan, target)
 	tcp       net.Conn // target's end of a direct connection
+	peerPort  int      // the port of socketace's end of it
 	appClosed bool
 	tgtHung   bool
 	ended     int32
@@ -60,6 +63,24 @@ func (c *cConn) startReader() {
 			}
 		}
 	}()
+}
+
+// heldAfterHangUp: the forward target has closed its end; is socketace's end of that TCP connection still open? (a socket whose peer
+// has closed and which has not been closed itself is in state CLOSE_WAIT - 08 in /proc/net/tcp - for as long as it is held)
+func heldAfterHangUp(ourPort, targetPort int) bool {
+	data, err := ioutil.ReadFile("/proc/net/tcp")
+	if err != nil {
+		return false
+	}
+	want := fmt.Sprintf(":%04X", ourPort)
+	rem := fmt.Sprintf(":%04X", targetPort)
+	for _, ln := range strings.Split(string(data), "\n") {
+		f := strings.Fields(ln)
+		if len(f) > 3 && strings.HasSuffix(f[1], want) && strings.HasSuffix(f[2], rem) && f[3] == "08" {
+			return true
+		}
+	}
+	return false
 }
 
 // targetSawClose: has socketace closed its end of a direct connection? (the target's read ends)
@@ -172,6 +193,9 @@ func runCli(a []Tok) []Tok {
 		case "od":
 			c := start("direct", "ok", true)
 			c.tcp = tgt.next(hWait)
+			if c.tcp != nil {
+				c.peerPort = c.tcp.RemoteAddr().(*net.TCPAddr).Port
+			}
 			out = append(out, TW("up"), TBool(c.tcp != nil))
 		case "dk":
 			if c := idx(&p); c != nil && c.k != nil && c.k.mode == "late" {
@@ -308,7 +332,13 @@ func runCli(a []Tok) []Tok {
 			case c.tcp == nil:
 				out = append(out, TW("n"))
 			case c.tgtHung:
-				out = append(out, TW("x"))
+				// (looked at once, after everything has settled: the unrepaired code's descriptor is released by the collector's finalizer, and
+				// polling would itself allocate enough to set the collector off)
+				if heldAfterHangUp(c.peerPort, tgt.ln.Addr().(*net.TCPAddr).Port) {
+					out = append(out, TW("o"))
+				} else {
+					out = append(out, TW("c"))
+				}
 			case c.targetSawClose(60 * time.Millisecond):
 				out = append(out, TW("c"))
 			default:
